@@ -9,7 +9,7 @@ import time
 
 VERIF = os.path.dirname(os.path.dirname(os.path.abspath(__file__)))
 TARGET = os.path.join(VERIF, 'build', 'finder-target')
-SUPPORTED = {'C15', 'C06', 'C11', 'C04', 'C05', 'C16', 'C01', 'C08', 'C03', 'C13', 'C02', 'C09', 'C12', 'C19', 'C14', 'C20'}
+SUPPORTED = {'C15', 'C06', 'C11', 'C04', 'C05', 'C16', 'C01', 'C08', 'C03', 'C13', 'C02', 'C09', 'C12', 'C19', 'C14', 'C20', 'C10'}
 
 
 def _env():
